@@ -5,7 +5,7 @@ PLAN = {
     "C01": [("A", 40000, 3000000, {}), ("B", 2000, 200000, {})],
     "C02": [("A", 40000, 3000000, {}), ("BELT", 15000, 1500000, {})],
     "C03": [("B", 4000, 400000, {})],
-    "C04": [("A", 40000, 3000000, {})],
+    "C04": [("A", 40000, 3000000, {}), ("BELT", 15000, 1500000, {})],
     "C05": [("A", 40000, 3000000, {})],
     "C06": [("A", 40000, 3000000, {}), ("BELT", 15000, 1500000, {}), ("B", 2000, 200000, {})],
     "C07": [("A", 20000, 1500000, {})],
